@@ -80,6 +80,10 @@ class Boom(Exception):
     pass
 
 
+class BaseBoom(BaseException):
+    """A failure that is not an Exception (as the SDK's own SuspendExecution / BackgroundThreadError, KeyboardInterrupt)."""
+
+
 def lock_trial(case):
     from aws_durable_execution_sdk_python.exceptions import OrderedLockError
     from aws_durable_execution_sdk_python.threading import OrderedLock
@@ -129,9 +133,23 @@ def lock_trial(case):
                     inside[0] -= 1
                     if inject == (idx, rd):
                         broke_at[0] = len(grants)
+                        if case.get("inject_cls") == "base":
+                            raise BaseBoom("injected in critical section")
+                        if case.get("inject_cls") == "suspend":
+                            from aws_durable_execution_sdk_python.exceptions import SuspendExecution
+
+                            raise SuspendExecution("injected in critical section")
                         raise Boom("injected in critical section")
                 outcomes[tid].append("ok")
-            except Boom:
+            except OrderedLockError:
+                outcomes[tid].append("lock-error")
+                break
+            except (Boom, BaseBoom):
+                outcomes[tid].append("own-exception")
+                break
+            except BaseException as e:  # noqa: BLE001
+                if type(e).__name__ != "SuspendExecution":
+                    raise
                 outcomes[tid].append("own-exception")
                 break
             except OrderedLockError:
@@ -258,6 +276,7 @@ def cases(tier, seed):
         if kind == "lock" and rng.random() < 0.45:
             inject = (rng.randrange(k), rng.randrange(rounds))
         yield {"label": kind, "kind": kind, "seed": seed * 1000003 + i, "threads": k, "rounds": rounds, "inject": inject,
+               "inject_cls": rng.choice(["exc", "exc", "base", "suspend"]) if inject else None,
                "perturb": rng.choice(["none", "yield", "yield", "pct", "dense"])}
 
 
@@ -283,7 +302,7 @@ def run_case(case):
 
 
 RULE = ("many short histories on the real OrderedLock/OrderedCounter: 2-16 threads x 1-50 acquire/release (or increment) rounds, an exception "
-        "injected in one critical section in ~45% of lock trials, under no perturbation / LINE-level yield injection on the SDK's threading.py "
+        "(an Exception, a bare BaseException or the SDK's SuspendExecution) injected in one critical section in ~45% of lock trials, under no perturbation / LINE-level yield injection on the SDK's threading.py "
         "(sparse, dense, PCT-style priorities) with switch interval 10us. True arrival order is recorded by a deque subclass substituted for "
         "the waiter queue (its append runs under the lock's own mutex). Oracle: grant order = arrival order, never two holders, thrower sees "
         "its own exception and nobody is granted afterwards, every other acquirer gets OrderedLockError, all threads terminate (wedge decided "
